@@ -1,7 +1,72 @@
-"""C11 - File-level obligations (see checks/file_common.py and DESIGN.md section 6)."""
-import sys, os
+"""C11 - no data races; an object handed over is never touched by the other side again.
+
+Three kinds of obligation, all on the extracted text of the real functions:
+
+ 1. hand-over (File.cpp, file_common jobs): File::read/write pass the pointer through and keep no alias; the decoding
+    worker does not touch an object after it pushed it to the queue (use-after-hand-over = CBMC's deallocated-object
+    check against the queue stub that frees what it was given).
+ 2. lock discipline of the three stage classes (UncompressedFile, ObjectQueue, CompressedFile): the extractor emits a
+    hook before every statement that names a data member (VB_TOUCH read / VB_TOUCH_W may-write; members of type
+    std::mutex, std::condition_variable, std::atomic, std::thread excepted; constructors and destructors excepted) and
+    turns lock_guard/unique_lock into VB_LOCK at the declaration and VB_UNLOCK on every exit of its scope.  Under
+    -DVB_LOCKSET the hook asserts "the object's mutex is held", VB_LOCK asserts "not held yet" (std::mutex is not
+    recursive), and each job asserts "released on return".  The jobs are the C15 / C16 / C04 harnesses (every method
+    from an arbitrary state within the representation invariant), so the obligation holds on every path of every method.
+ 3. ownership of File's own members (file_common.ownership_table): the rule per member is DERIVED from the hooks and
+    the call graph (who can execute which function); CBMC proves the part that depends on the thread state: e.g.
+    close() reads currentUncompressedFileSize / the workers' exception slots only after the join of the worker that
+    writes them; the transfer functions run on the application thread only after both joins.
+
+Together: every access to shared state is under the stage mutex, atomic, or ordered by thread start/join - for every
+path through every function, not for the schedules a stress run happens to see.  NOT decided: accesses through
+pointers handed to callbacks outside the library; the memory model of std::atomic (assumed); TSan-style dynamic checking.
+"""
+import sys, os, re
 sys.path.insert(0, os.path.dirname(os.path.dirname(os.path.abspath(__file__))))
 from run import core
-from checks import file_common
+from checks import file_common, c15, c16, c04
+
+
+def must_replace(src, old, new, what):
+    if old not in src: raise core.Inconclusive('C11 lockset: pattern for %s not found in the reused harness (renamed?)' % what)
+    return src.replace(old, new, 1)
+
+
+def lockset(job, cls, obj, init_old, init_new, newname):
+    """reuse a harness of another property with lock tracking switched on"""
+    src = '#define VB_LOCKSET 1\n' + job.source
+    src = must_replace(src, init_old, init_new, 'initial lock state')
+    rel = '    __CPROVER_assert(%s.m_mutex.held == 0, "C11/%s/lockset/the-mutex-is-released-when-the-operation-returns");\n' % (obj, cls)
+    src = must_replace(src, '    __CPROVER_assert(0, "canary");', rel + '    __CPROVER_assert(0, "canary");', 'canary')
+    ids = []
+    for c in job.canary_ids:
+        m = re.match(r'harness\.assertion\.(\d+)$', c)
+        ids.append('harness.assertion.%d' % (int(m.group(1)) + 1) if m else c)
+    return core.Job(newname, src, route=job.route, flags=job.flags, functions=job.functions, unwind=job.unwind, canary_ids=ids,
+                    timeout=job.timeout, loop_contracts=job.loop_contracts, labels=job.labels, bounded=job.bounded)
+
+
+def lockset_jobs(info, L=2, prefix='C11'):
+    js = []
+    for j in c15.jobs(L, 600):
+        n = j.name.replace('C15_UncompressedFile_', '')
+        if n in ('ctor', 'logContainerContaining'): continue      # construction is single-threaded; logContainerContaining is a PRIVATE helper whose contract requires the lock: its hooks are checked inside its callers' jobs (read, write, seekg, ...)
+        js.append(lockset(j, 'UncompressedFile', 'u', '    o = u; for', '    u.m_mutex.held = 0; o = u; for', prefix + '_lockset_UncompressedFile_' + n))
+    for j in c16.jobs():
+        n = j.name.replace('C16_ObjectQueue_', '')
+        if n in ('ctor', 'dtor'): continue
+        js.append(lockset(j, 'ObjectQueue', 'q', 'o = q; vb_exc = 0;', 'q.m_mutex.held = 0; o = q; vb_exc = 0;', prefix + '_lockset_ObjectQueue_' + n))
+    j = c04.compressed_file_job(info)
+    js.append(lockset(j, 'CompressedFile', 'c', 'struct CompressedFile c;', 'struct CompressedFile c; c.m_mutex.held = 0;', prefix + '_lockset_CompressedFile_all_methods'))
+    return js
+
+
+def extra(info):
+    return lockset_jobs(info)
+
+
 if __name__ == '__main__':
-    core.main_wrapper(lambda: file_common.run_property('C11'))
+    core.main_wrapper(lambda: file_common.run_property('C11', extra_jobs=extra, assumptions=[
+        'std::atomic members (currentObjectCount, the two "running" flags) are race free by their type; std::thread start/join order the accesses before/after them (C++ memory model, assumed)',
+        'the hooks are emitted per statement by the extractor for every data member the statement names; accesses through raw pointers into a member (none in the stage classes) would not be seen',
+        'bounded stand-in for UncompressedFile: at most 2 containers held at once (as C15); ObjectQueue, CompressedFile and File jobs are unbounded']))
